@@ -2,7 +2,7 @@
     stay Coq datatypes; no Extract Constant). Run coqc from the ocaml/ directory. *)
 Require Extraction.
 Require Import ExtrOcamlBasic.
-From IAVL Require Import Bytes Varint Sha256 Tree VMap MTree KV Iter ExportImport Codec Diff Store Ics23 VersionFacts PruneAlgo FastLife Discover Crash.
+From IAVL Require Import Bytes Varint Sha256 Tree VMap MTree KV Iter ExportImport Codec Diff Store Ics23 VersionFacts PruneAlgo FastLife Discover Crash DbImage.
 
 Definition m_step := MTree.step sha256.
 Definition m_init := MTree.init_state.
@@ -29,4 +29,5 @@ Extraction "model.ml" m_step m_init bcmp sha256 uvarint_enc uvarint_dec varint_e
   get_proof_sha Ics23.marshal_commitment_proof VersionFacts.in_contractb
   prune_forest_sha prune_forest_disks_sha readable_sha PruneAlgo.phys_of PruneAlgo.rekeyed
   fstep_sha FastLife.finit Discover.discovered_available
-  commit_node_ops_sha Crash.recover Crash.image Store.rollback_ops Store.rebuild_ops Store.apply_ops.
+  commit_node_ops_sha Crash.recover Crash.image Store.rollback_ops Store.rebuild_ops Store.apply_ops
+  DbImage.encode_image DbImage.decode_image.
